@@ -29,6 +29,11 @@ class Opts:
         self.bag_shapes = 0.0      # probability that the bag of a generated findall/3 is not a plain variable (see bag_shape)
         self.churn = 0.0           # probability that the clauses of a predicate reuse the same variable names in changing roles (see gen_program)
         self.contdup = 0.0         # probability that a clause body has the shape  (A ; B), K  /  (C -> T ; E), K  (see contdup_body)
+        # round 4 (lib/progs_r4.py); every option is "off" by default and then draws no random number
+        self.numerals = 0.0        # probability that a leaf of a generated term is a numeral in one of its spellings (007, 00, 0, large)
+        self.constcmp = 0.0        # probability that an atomic goal is  L = R  /  L \= R  between two constants / ground terms
+        self.negbuiltin = 0.0      # probability that a leaf of a body is  \+ <builtin goal with unifiable arguments>  + an observer of the variables
+        self.localcut3 = 0.0       # probability that a clause body is a three-level nesting of local-cut constructs (progs_r4.local_cut3_body)
         self.__dict__.update(kw)
 
 def V(n): return ['var', n]
@@ -43,6 +48,9 @@ def rand_atom(rng, o):
 def rand_sterm(rng, o, vars_, depth, pvar=0.45, anon=True):
     r = rng.random()
     if depth <= 0 or r < 0.5:
+        if o.numerals and rng.random() < o.numerals:
+            from . import progs_r4
+            return progs_r4.rand_numeral(rng)
         q = rng.random()
         if vars_ and q < pvar:
             return V(rng.choice(vars_))
@@ -98,6 +106,9 @@ def generalize(rng, t, vars_):
 
 def _goal(rng, o, callees, vars_, depth=2):
     """an atomic goal"""
+    if o.constcmp and rng.random() < o.constcmp:
+        from . import progs_r4
+        return progs_r4.const_comparison(rng)
     r = rng.random()
     if o.eqneq and r < 0.22:
         op = '=' if rng.random() < 0.7 else '\\='
@@ -186,6 +197,9 @@ def _meta(rng, o, callees, vars_):
 
 def rand_body(rng, o, callees, vars_, size, opaque=False, top=True):
     if size <= 1:
+        if o.negbuiltin and vars_ and rng.random() < o.negbuiltin:
+            from . import progs_r4
+            return progs_r4.neg_builtin_fragment(rng, vars_)
         r = rng.random()
         if o.cut and r < 0.12 and (not opaque or o.opaque_cut):
             return ['cut']
@@ -273,6 +287,16 @@ def gen_program(rng, o):
                 body = contdup_body(rng, o, callees, (hv + hv + vars_[:2]) or ['W'])
                 if ci == ncl - 1:
                     # a following clause, so that a break / return that wrongly leaves the clause is visible
+                    clauses.append([name, head, body])
+                    head = [rng.choice([V('_'), A('after'), V('X')]) for _ in range(ar)]
+                    body = ['true']
+            if o.localcut3 and rng.random() < o.localcut3:
+                from . import progs_r4
+                hv = list(dict.fromkeys(a[1] for a in head if a[0] == 'var' and a[1] != '_'))
+                body = progs_r4.local_cut3_body(rng, (hv + hv + vars_[:2]) or ['W'], [c[0] for c in callees if c[0].startswith('q')])
+                if rng.random() < 0.4:
+                    body = ['and', body, _succ_goal(rng, o, callees, (hv + vars_[:2]) or ['W'])]
+                if ci == ncl - 1:
                     clauses.append([name, head, body])
                     head = [rng.choice([V('_'), A('after'), V('X')]) for _ in range(ar)]
                     body = ['true']
